@@ -7,6 +7,7 @@ from .. import refcodec as rc
 from .. import netplan as npl
 from .. import seccrypto as sc
 from ..secnet import SecNetSim
+from ..wiremon import root_cause
 from ..result import finish
 from . import c01
 
@@ -18,6 +19,8 @@ RULE_TEXT = ("one run = 2-5 secured stations (real GN router, SignService, Verif
              "SHBs at 1-10 Hz, DENM-profile GBCs and generic-profile messages in virtual time; stations join (links come up) at seeded instants "
              "relative to the senders' 1 s certificate-inclusion timers; receivers know only root+AA or are pre-loaded with peer tickets; "
              "lossless or lossy ether; every verification at every receiver and every emitted secured packet (decoded independently) is judged; "
+             "the signed GN-PDU of every emitted packet is compared with the reference encoding of the request that caused it, and every SUCCESS "
+             "verification must end in a BTP indication with the requested payload on the requested port; "
              "non-trivial = at least one digest-signed message reached a receiver; distinct = distinct sequences of (profile, signer kind, "
              "per-receiver report class)")
 COMPONENTS = {"real": ["geonet.Router (security encapsulation / decapsulation)", "security.SignService", "security.VerifyService",
@@ -29,9 +32,14 @@ ASSUMPTIONS = ["only the two inclusion causes named in the statement are demande
                "on what each station actually received (request in the receiver's next CAM/VAM, certificate in the sender's next CAM/VAM, acceptance "
                "from then on)",
                "stations that never send CAM/VAM cannot request certificates; for them only certificate-carrying messages are demanded",
-               "generic-profile messages: only psid and generationTime are judged"]
+               "generic-profile messages: only psid and generationTime are judged",
+               "end-to-end rules are judged per reception: a GBC whose (source, sequence number) the receiver instance has already accepted is a "
+               "duplicate and need not be delivered again (dup fault, sequence numbers re-used after a sender restart); GBC delivery is demanded only "
+               "of receivers clearly inside the destination area; packet types other than SHB / GBC are counted, not judged"]
 EXPECTED_PROBES = ["accepted:certificate", "accepted:digest-known", "rejected:digest-unknown", "p2pcd-request-seen", "cert-after-request",
-                   "cert-after-1s", "late-joiner", "denm-checked", "generic-checked", "preloaded-receiver", "accepted-after-learning"]
+                   "cert-after-1s", "late-joiner", "denm-checked", "generic-checked", "preloaded-receiver", "accepted-after-learning",
+                   "signed-payload-checked", "delivered-after-success", "delivered-after-success:CAM", "delivered-after-success:VAM",
+                   "delivered-after-success:DENM", "delivered-after-success:other"]
 
 CAMLIKE = {"COOPERATIVE_AWARENESS_MESSAGE": 36, "VRU_AWARENESS_MESSAGE": 638}
 
@@ -181,6 +189,8 @@ def judge(sim: SecNetSim):
                     sim.violate(ID, "forbidden-field:" + f, "DENM", f"station {s} emitted a DENM with {f}")
         else:
             sim.probe("generic-checked")
+    # ------------------------------------------------------------------ end to end: what was signed, what reached the application
+    judge_end_to_end(sim)
     # ------------------------------------------------------------------ receptions: acceptance and the learning exchange
     known: dict[int, set] = {s.idx: set(s.spec.get("preload", [])) for s in sim.stations if s.spec.get("secure")}
     for r_, ks in known.items():
@@ -280,3 +290,115 @@ def judge(sim: SecNetSim):
                     pending[(rcv, snd)] = {"phase": "rejected", "t": v["t"]}
             trace.append((prof, "digest", "unknown:" + str(v["report"])))
     return trace
+
+
+def _request_of(sim, tx, by_idx):
+    """The request op that caused an emitted packet (None when it was not caused by one)."""
+    cause = root_cause(tx["cause"])
+    if not cause or cause[0] != "op":
+        return None
+    rec = by_idx.get(cause[1])
+    if rec is None or rec["op"].get("op") != "req" or rec.get("skipped") or rec["op"].get("st") != tx["st"]:
+        return None
+    return rec
+
+
+def _btp_body(op) -> bytes:
+    return rc.enc_btp(op["dport"], op.get("sport", 0) if op.get("btp", "b") == "a" else op.get("dpinfo", 0)) + bytes.fromhex(op.get("payload", ""))
+
+
+def judge_end_to_end(sim: SecNetSim) -> None:
+    """(signed-payload-differs) the GN-PDU inside every genuine secured packet is the reference encoding (refcodec, as C02 judges
+    unsecured frames) of the request that caused it; (not-delivered-after-success / delivered-payload-differs) every SUCCESS
+    verification of such a packet ends, within the same reception, in a BTP indication on the requested port with the requested payload."""
+    by_idx = {o["idx"]: o for o in sim.hist.ops}
+    pseudo_basic = rc.enc_basic(rc.NH_COMMON, 0, 1)
+    tx_info: dict[bytes, tuple] = {}
+    for tx in sim.sectx:
+        m = tx["m"]
+        if tx["injected"] or "prof" not in tx:
+            continue
+        rec = _request_of(sim, tx, by_idx)
+        if rec is None:
+            sim.probe("signed-payload-unjudged:no-request")
+            continue
+        op, prof, s = rec["op"], tx["prof"], tx["st"]
+        inner = m.payload
+        parsed = None
+        if inner is not None:
+            try:
+                parsed = rc.parse_common_on(inner)
+            except rc.Malformed:
+                parsed = None
+        tx_info[tx["msg"]] = (tx, op, parsed)
+        if op["type"] not in ("shb", "gbc") or tx.get("ego") is None:
+            sim.probe("signed-payload-unjudged:" + op["type"])
+            continue
+        if rec.get("e2e_seen"):
+            sim.probe("signed-payload-unjudged:second-packet-of-request")
+            continue
+        rec["e2e_seen"] = True
+        if parsed is None:
+            sim.violate(ID, "signed-payload-differs", prof + "/unparsable", f"station {s}: the signed payload of a {prof} is not a GN-PDU the reference parser accepts")
+            continue
+        mib = sim.stations[s].mib
+        hl = op.get("hl", 1)
+        rhl = 1 if op["type"] == "shb" else (hl if hl > 1 else mib.itsGnDefaultHopLimit)
+        exp = {"basic": {"nh": rc.NH_COMMON, "lt": 0, "rhl": 1},
+               "common": {"nh": 1 if op.get("btp", "b") == "a" else 2, "ht": rc.HT_TSB if op["type"] == "shb" else rc.HT_GBC,
+                          "hst": 0 if op["type"] == "shb" else op["area"]["shape"], "tc": op.get("tc", 0),
+                          "flags": mib.itsGnIsMobile.value << 7, "mhl": rhl},
+               "so": tx["ego"], "payload": _btp_body(op)}
+        if op["type"] == "gbc":
+            a = op["area"]
+            exp["area"] = {"lat": a["lat"], "lon": a["lon"], "a": a["a"], "b": a["b"], "angle": a["angle"]}
+            exp["sn"] = parsed.get("sn", 0)
+        want = rc.build_packet(exp)[4:]
+        sim.probe("signed-payload-checked")
+        if want != inner:
+            field = rc.describe_diff(pseudo_basic[:3] + bytes([max(1, rhl)]) + inner, pseudo_basic[:3] + bytes([max(1, rhl)]) + want)
+            sim.violate(ID, "signed-payload-differs", f"{prof}/{field}",
+                        f"station {s} {prof} ({op['type']}): signed GN-PDU {inner[:64].hex()} differs from the reference encoding of the request "
+                        f"{want[:64].hex()} (first differing field {field})")
+    # receptions
+    inds: dict[tuple, list] = {}
+    for i in sim.hist.ind:
+        c = i["cause"]
+        if c and c[0] == "rx":
+            inds.setdefault((i["st"], c[1]), []).append(i)
+    accepted_sn: set = set()
+    for v in sorted(sim.verifs, key=lambda v_: v_["ev"]):
+        if v["report"] != "SUCCESS" or v["msg"] not in tx_info:
+            continue
+        tx, op, parsed = tx_info[v["msg"]]
+        prof, rcv, c = tx["prof"], v["st"], v["cause"]
+        if rcv == tx["st"] or not c or c[0] != "rx":
+            sim.probe("delivery-unjudged:no-reception")
+            continue
+        if op["type"] == "gbc":
+            sn = parsed.get("sn") if parsed else None
+            key = (rcv, v["gen"], tx["st"], sn)
+            if key in accepted_sn:
+                sim.probe("delivery-excused:duplicate-sequence-number")
+                continue
+            accepted_sn.add(key)
+            pos = sim.stations[rcv].pos
+            if rc.area_verdict(op["area"]["shape"], op["area"], pos[0], pos[1]) != "inside":
+                sim.probe("delivery-unjudged:not-clearly-inside")
+                continue
+        elif op["type"] != "shb":
+            sim.probe("delivery-unjudged:" + op["type"])
+            continue
+        want = bytes.fromhex(op.get("payload", ""))
+        got = inds.get((rcv, c[1]), [])
+        on_port = [i for i in got if i["port"] == op["dport"]]
+        if any(bytes(i["ind"].data) == want for i in on_port):
+            sim.probe("delivered-after-success")
+            sim.probe("delivered-after-success:" + prof)
+        elif got:
+            i0 = (on_port or got)[0]
+            sim.violate(ID, "delivered-payload-differs", prof, f"station {rcv} verified a {prof} of station {tx['st']} (SUCCESS) but the indication of that "
+                        f"reception is port {i0['port']} data {bytes(i0['ind'].data)[:32].hex()} instead of port {op['dport']} data {want[:32].hex()}")
+        else:
+            sim.violate(ID, "not-delivered-after-success", prof, f"station {rcv} verified a {prof} of station {tx['st']} (SUCCESS) at "
+                        f"+{(v['t'] - sim.kernel.t0_us) / 1e6:.3f} s but no BTP indication followed on port {op['dport']}")
